@@ -43,7 +43,7 @@ rechunk_spec = Contract(
     MODULE, "rechunk[target spec]", source="rechunk",
     fragment=spec_fragment,
     params={"x": ArrX, "chunks": Spec},
-    immutable=["chunks"],
+    immutable=["chunks"], narrow=["chunks"],
     requires=[
         ("array", "x.ndim == len(x.chunks) and x.ndim >= 0"),
         ("valid-axes", "implies(isinstance(chunks, dict), forall(lambda c: implies(c in as_dict(chunks).keys(), 0 - x.ndim <= c and c < x.ndim), Int))"),
